@@ -179,6 +179,11 @@ class histogram():
         # check that their edges coincide.
         # The user can separately compare their edges if they
         # have different requirements.
+        # isclose does not compare the dimensions of its arguments
+        if self.nbins != other.nbins:
+            raise LenaValueError(
+                "can not add histograms with different numbers of bins"
+            )
         if not isclose(self.edges, other.edges,
                        abs_tol=edges_abs_tol, rel_tol=edges_rel_tol):
             raise LenaValueError("can not add histograms with different edges")
